@@ -124,6 +124,43 @@ var (
 type walker struct {
 	o    *Options
 	path map[uintptr]int // pointers on the current descent path (cycle guard)
+	// per-type caches
+	skipT  map[reflect.Type]bool
+	fields map[reflect.Type][]fieldPlan
+}
+
+type fieldPlan struct {
+	idx  int
+	name string
+}
+
+func (w *walker) skip(t reflect.Type) bool {
+	if v, ok := w.skipT[t]; ok {
+		return v
+	}
+	v := w.o.skipType(t)
+	w.skipT[t] = v
+	return v
+}
+
+func (w *walker) plan(t reflect.Type) []fieldPlan {
+	if p, ok := w.fields[t]; ok {
+		return p
+	}
+	full, short := typeKey(t)
+	var p []fieldPlan
+	for i := 0; i < t.NumField(); i++ {
+		f := t.Field(i)
+		if w.o.skipF[short+"."+f.Name] || w.o.skipF[full+"."+f.Name] {
+			continue
+		}
+		if w.skip(f.Type) {
+			continue
+		}
+		p = append(p, fieldPlan{i, f.Name})
+	}
+	w.fields[t] = p
+	return p
 }
 
 // Dump renders v with default options.
@@ -131,7 +168,7 @@ func Dump(v any) *Node { return (&Options{}).Dump(v) }
 
 // Dump renders v.
 func (o *Options) Dump(v any) *Node {
-	w := &walker{o: o.prepare(), path: map[uintptr]int{}}
+	w := &walker{o: o.prepare(), path: map[uintptr]int{}, skipT: map[reflect.Type]bool{}, fields: map[reflect.Type][]fieldPlan{}}
 	if v == nil {
 		return &Node{Kind: KLeaf, Leaf: "nil"}
 	}
@@ -172,7 +209,7 @@ func (w *walker) walk(v reflect.Value, depth int) *Node {
 	}
 	v = expose(v)
 	t := v.Type()
-	if w.o.skipType(t) {
+	if w.skip(t) {
 		return nil
 	}
 	switch t.Kind() {
@@ -217,16 +254,23 @@ func (w *walker) walk(v reflect.Value, depth int) *Node {
 	case reflect.Slice, reflect.Array:
 		if t.Elem().Kind() == reflect.Uint8 {
 			n := v.Len()
-			b := make([]byte, n)
-			for i := 0; i < n; i++ {
-				b[i] = byte(expose(v.Index(i)).Uint())
+			var b []byte
+			if t.Kind() == reflect.Slice {
+				b = v.Bytes()
+			} else if v.CanAddr() {
+				b = v.Slice(0, n).Bytes()
+			} else {
+				b = make([]byte, n)
+				for i := 0; i < n; i++ {
+					b[i] = byte(v.Index(i).Uint())
+				}
 			}
 			return leaf("0x" + hex.EncodeToString(b))
 		}
-		if w.o.skipType(t.Elem()) {
+		if w.skip(t.Elem()) {
 			return nil
 		}
-		out := &Node{Kind: KList, Type: t.String()}
+		out := &Node{Kind: KList}
 		for i := 0; i < v.Len(); i++ {
 			k := w.walk(v.Index(i), depth+1)
 			if k == nil {
@@ -236,8 +280,8 @@ func (w *walker) walk(v reflect.Value, depth int) *Node {
 		}
 		return out
 	case reflect.Map:
-		out := &Node{Kind: KMap, Type: t.String()}
-		if w.o.skipType(t.Elem()) {
+		out := &Node{Kind: KMap}
+		if w.skip(t.Elem()) {
 			return nil
 		}
 		type ent struct {
@@ -268,18 +312,14 @@ func (w *walker) walk(v reflect.Value, depth int) *Node {
 			bi := v.Addr().Interface().(*big.Int)
 			return leaf(bi.String())
 		}
-		out := &Node{Kind: KStruct, Type: t.String()}
-		full, short := typeKey(t)
-		for i := 0; i < t.NumField(); i++ {
-			f := t.Field(i)
-			if w.o.skipF[short+"."+f.Name] || w.o.skipF[full+"."+f.Name] {
-				continue
-			}
-			k := w.walk(v.Field(i), depth+1)
+		pl := w.plan(t)
+		out := &Node{Kind: KStruct, Names: make([]string, 0, len(pl)), Kids: make([]*Node, 0, len(pl))}
+		for _, f := range pl {
+			k := w.walk(v.Field(f.idx), depth+1)
 			if k == nil {
 				continue
 			}
-			out.Names = append(out.Names, f.Name)
+			out.Names = append(out.Names, f.name)
 			out.Kids = append(out.Kids, k)
 		}
 		return out
